@@ -216,6 +216,31 @@ Theorem C20_log_row_parses : forall c k texts, 0 <= k -> ~ is_digit c -> Forall 
 Proof. exact row_parses. Qed.
 Print Assumptions C20_log_row_parses.
 
+(* ------------------------------------------------------------------ defects reproduced by the faithful model *)
+(* FULL statement (blocks): every block whose vector axis is c*nnodes long is written as point data, one array per
+   vector.  Proved above for the sizes where the total size is not a multiple of nel (C20_block_vectors is applied by
+   vti_arrays only after `classify` on the TOTAL size).  Refuted in general: *)
+Theorem C20_block_total_size_refuted :
+  exists g k c, wf g /\ 1 < k /\ k mod nel g <> 0 /\ k mod nnodes g <> 0 /\ (c * nnodes g) mod nel g <> 0 /\
+    forall key ws, vti_arrays g [(key, [k; c * nnodes g], ws)] = Err TypeError.
+Proof. exact block_total_size_refuted. Qed.
+Print Assumptions C20_block_total_size_refuted.
+
+(* FULL statement: a block with a single 2-component nodal vector on a 2-D domain is padded like a plain vector.
+   Refuted (C20_block_vectors needs 1 < k, C20_components needs a 1-D array): *)
+Theorem C20_single_vector_block_refuted : forall n key ws, 1 < n ->
+  entry_arrays true true n key [1; 2 * n] ws = Err ValueError /\
+  entry_arrays true true n key [2 * n; 1] ws = Err ValueError.
+Proof. exact single_vector_block_refuted. Qed.
+Print Assumptions C20_single_vector_block_refuted.
+
+(* FULL statement: every array of logged values gets one column per entry.  Refuted for arrays with exactly one entry
+   (C20_log_shape needs `loggable`: more than one entry): *)
+Theorem C20_log_single_entry_refuted : forall (V : Type) (fmt : V -> str) sep st tag x fo rest_sigs rest_calls,
+  log_run V fmt sep st (((tag, LArr [1] [x] fo) :: rest_sigs) :: rest_calls) = Err TypeError.
+Proof. exact single_entry_refuted. Qed.
+Print Assumptions C20_log_single_entry_refuted.
+
 (* ------------------------------------------------------------------ non-vacuity *)
 Definition G (a b c : Z) : grid := {| nelx := a; nely := b; nelz := c |}.
 Definition w1 (k : Z) : word := [k; 0; 128; 63].
